@@ -308,64 +308,88 @@ pub fn classify(sys: &Sys) -> Result<(Band, SlackCert), String> {
         }
         return Ok((band, SlackCert { t: c.t, x: c.x, y, ycap: c.ycap }));
     }
-    // "Non-empty by a margin" is only asserted for regions that have a thick point at a moderate
-    // distance (|x_i| <= 1e5): a region that is thick only 1e15 away from the origin (nearly parallel
-    // hyperplanes of float-regime trees) is beyond what a floating-point LP solver can be expected to
-    // resolve and counts as thin. "Empty by a margin" is judged without the box.
+    // "Non-empty by a margin" (Thick): there is a point x, |x_j| <= 2^27, at which EVERY row has a slack of at
+    // least 1e-4 plus 2^-20 of that row's activity sum_j |a_ij||x_j| + |b_i|. The absolute part is the band of
+    // the first design; the relative part says the slack must be significant at the magnitude of the numbers
+    // involved, which is what a floating-point LP solver can resolve. History of this criterion (DESIGN.md §8):
+    // a purely absolute slack called a sliver of width 1e-4 lying 5e15 away "thick" (oracle error f); a box
+    // |x| <= 1e5 fixed that but hid every region beyond it (seeded changes C01-g, C05-g, C06-g/h pruned wide
+    // regions 3e6 away unnoticed); with coefficients of 4e5 a wedge touching the box at 1e5 was again called
+    // thick although its slack was 1e-15 of the row activity (oracle error i). The activity-relative form
+    // covers all three. It is linear in (x, u) with u_j >= |x_j|.
     let band = band_q();
-    let mut boxed = sys.clone();
-    let r = Q::int(100_000);
-    for j in 0..sys.n {
-        for sg in [1i64, -1] {
-            let mut row = vec![Q::zero(); sys.n];
-            row[j] = Q::int(sg);
-            boxed.push(row, r.clone());
-        }
-    }
-    let cb = max_slack(&boxed, &Q::one())?;
-    if cb.t.ge(&band) {
-        let y = cb.y[..sys.m()].to_vec();
-        return Ok((Band::Thick, SlackCert { t: cb.t, x: cb.x, y, ycap: cb.ycap }));
-    }
-    // Far regions (added after the fourth seeding round: changes that wrongly prune wide regions lying beyond
-    // |x| > 1e6 were invisible behind the box above): a region also counts as non-empty by a margin if it has
-    // a point x with |x_i| <= 2^27 whose uniform slack t is at least 1e-4 AND at least 2^-20 |x_i| for every
-    // i - i.e. it is wide *relative to where it lies*. The sliver of oracle error (f) (width 1e-4 at 5e15)
-    // fails this test by ten orders of magnitude; a half-space x0 >= 3e6 passes it with t = 3e6.
-    if sys.n > 0 {
-        let n = sys.n;
-        let mut aug = Sys::new(n + 1);
+    let n = sys.n;
+    let rho = Q::int(1).div(&Q::int(1 << 20));
+    // cheap sufficient test first (most thick cells lie near the origin): inside the box |x_j| <= 16 the
+    // activity of row i is at most 16 sum_j |a_ij| + |b_i|, a constant
+    if n > 0 {
+        let b1 = Q::int(16);
+        let mut near = Sys::new(n);
         for (row, b) in sys.a.iter().zip(sys.b.iter()) {
-            let mut r = row.clone();
-            r.push(Q::one());
-            aug.push(r, b.clone());
+            let act = row.iter().fold(b.abs(), |a, v| a.add(&v.abs().mul(&b1)));
+            near.push(row.clone(), b.sub(&rho.mul(&act)).sub(&band));
         }
-        let rel = Q::int(1).div(&Q::int(1 << 20));
-        let far = Q::int(1 << 27);
         for j in 0..n {
             for sg in [1i64, -1] {
-                let mut r = vec![Q::zero(); n + 1];
-                r[j] = if sg > 0 { rel.clone() } else { rel.neg() };
-                r[n] = Q::int(-1);
-                aug.push(r, Q::zero());
-                let mut r2 = vec![Q::zero(); n + 1];
-                r2[j] = Q::int(sg);
-                aug.push(r2, far.clone());
+                let mut r = vec![Q::zero(); n];
+                r[j] = Q::int(sg);
+                near.push(r, b1.clone());
             }
         }
-        let mut r = vec![Q::zero(); n + 1];
-        r[n] = Q::int(-1);
-        aug.push(r, band.neg());
-        let ca = max_slack(&aug, &Q::one())?;
-        if !ca.t.is_neg() && aug.contains(&ca.x) {
-            let t = ca.x[n].clone();
-            let x = ca.x[..n].to_vec();
-            return Ok((Band::Thick, SlackCert { t, x, y: vec![Q::zero(); sys.m()], ycap: Q::zero() }));
+        let cn = max_slack(&near, &Q::one())?;
+        if !cn.t.is_neg() && near.contains(&cn.x) {
+            let t = sys.min_slack(&cn.x).unwrap_or_else(Q::one);
+            return Ok((Band::Thick, SlackCert { t, x: cn.x, y: vec![Q::zero(); sys.m()], ycap: Q::zero() }));
         }
     }
-    let cert = max_slack(sys, &Q::one())?;
-    let b = if cert.t.le(&band.neg()) { Band::Empty } else { Band::Thin };
-    Ok((b, cert))
+    // then the emptiness test (empty and thick exclude each other; most non-thick cells are empty)
+    let mut norm = Sys::new(sys.n);
+    for (row, b) in sys.a.iter().zip(sys.b.iter()) {
+        let mx = row.iter().fold(Q::one(), |a, v| a.max_q(&v.abs()));
+        norm.push(row.iter().map(|v| v.div(&mx)).collect(), b.div(&mx));
+    }
+    let cert_norm = max_slack(&norm, &Q::one())?;
+    if cert_norm.t.le(&band.neg()) {
+        return Ok((Band::Empty, cert_norm));
+    }
+    if n > 0 {
+        let far = Q::int(1 << 27);
+        let mut aug = Sys::new(2 * n);
+        for (row, b) in sys.a.iter().zip(sys.b.iter()) {
+            let mut r = row.clone();
+            for v in row.iter() {
+                r.push(rho.mul(&v.abs()));
+            }
+            aug.push(r, b.sub(&rho.mul(&b.abs())).sub(&band));
+        }
+        for j in 0..n {
+            for sg in [1i64, -1] {
+                let mut r = vec![Q::zero(); 2 * n];
+                r[j] = Q::int(sg);
+                r[n + j] = Q::int(-1);
+                aug.push(r, Q::zero());
+            }
+            let mut r = vec![Q::zero(); 2 * n];
+            r[n + j] = Q::one();
+            aug.push(r, far.clone());
+        }
+        let ca = max_slack(&aug, &Q::one())?;
+        if !ca.t.is_neg() && aug.contains(&ca.x) {
+            let x = ca.x[..n].to_vec();
+            let t = sys.min_slack(&x).unwrap_or_else(Q::one);
+            return Ok((Band::Thick, SlackCert { t, x, y: vec![Q::zero(); sys.m()], ycap: Q::zero() }));
+        }
+    } else {
+        let cert = max_slack(sys, &Q::one())?;
+        if cert.t.ge(&band) {
+            return Ok((Band::Thick, cert));
+        }
+    }
+    // "Empty by a margin": the uniform slack of the system whose rows are divided by max(1, max_j |a_ij|) is
+    // at most -1e-4 (for rows with coefficients <= 1 this is the raw slack; a large row has to be violated by
+    // 1e-4 of its own scale, so that the violation is not within the solver's noise). No box: a region the
+    // library correctly keeps because it is non-empty far away can never be called empty.
+    Ok((Band::Thin, cert_norm))
 }
 
 #[derive(Clone, Debug)]
